@@ -61,12 +61,17 @@ def run(chk):
         # short idle limits and a short collection period: the collection counter is shared by all scenes, so the
         # interleaved run collects expired tracks at other moments than the single-scene run
         kw = dict(steps=200, shards=2, metric="iou" if i % 2 == 0 else "maha", max_idle=(0, 1, 2)[i % 3], objects=3, spread=90, scenes="0,7",
-                  crafted=False, extra=["--no-lifecycle", "1"] + (["--aw", str((3, 7)[i % 2])] if i % 4 != 3 else []))
+                  crafted=(i % 2 == 0), extra=["--no-lifecycle", "1"] + (["--aw", str((3, 7)[i % 2])] if i % 4 != 3 else []))
         if i % 2 == 1:
             kw["constraints"] = "1:1000.0,4:1000.0"
+        if i % 3 == 1:
+            # one scene is far ahead of the other (skipped by 150 epochs before the first call)
+            kw["extra"] = kw["extra"] + ["--pre-skip", "7:150"]
         a = r2.record(chk, f"c04-all-{i}", kind, seed, **kw)
         traces.append(a)
-        for sc in (0, 7):
+        # every other run also holds a small scene (99) with crafted contests in which the greedy choice is not optimal:
+        # how such a contest is decided must not depend on how many tracks the other scenes hold at that moment
+        for sc in (0, 7, 99) if kw["crafted"] else (0, 7):
             kw2 = dict(kw); kw2["extra"] = kw["extra"] + ["--only-scene", str(sc)]
             b = r2.record(chk, f"c04-only{sc}-{i}", kind, seed, **kw2)
             ok, rej = r2.pairing(chk, f"c04-pair-{i}-{sc}", a, b, "renaming", scene=sc)
